@@ -27,17 +27,21 @@ META = dict(
                "grouping, virtual-time loop.",
     rule="case = receiver scenario with a stop instant (absolute, or relative to an event of the run such as the begin of a task's "
          "cancellation clean-up) and / or N (A, P, wait_tasks_timeout, messages short / long / never-ending / slow to react to the "
-         "cancellation their timeout label causes); "
+         "cancellation their timeout label causes); Further family (own random stream): the REAL taskiq.api.run_receiver_task coroutine runs for the whole scenario over a scripted listen() that raises 0..3 times (ConnectionError, RuntimeError, TimeoutError, OSError, EOFError, a client's own class, a falsy exception object, an ExceptionGroup, BrokerError) as the first thing a session does / right after taking a message / while tasks are in flight / while idle, the remaining messages going to the re-started listening; N and wait_tasks_timeout set by the receiver class handed to it, stop = the finish event it gave to listen(); decided by the direct oracles only, every listen() session held to the statement by its own messages; "
          "non-trivial iff at the shutdown trigger >= 1 callback is running and >= 1 message is taken-but-not-started or arrives within "
          "the next poll period; distinct by canonical scenario",
     trusted_base=["model: coq/theories/RecvLTS.v", "logging shims + raw log -> LTS event grouping: harness/shims.py; harness/vloop.py"],
     assumptions=["fairness of the asyncio event loop; timers fire at their instant (virtual time)",
-                 "the broker's listen() generator takes a message only at its yield and raises nothing but StopAsyncIteration"],
+                 "the broker's listen() generator takes a message only at its yield; in the proofs it raises nothing but StopAsyncIteration. "
+                 "Runs under run_receiver_task with a failing listen() are oracle-checked only; the worker that is asked to stop, accepts "
+                 "N messages, drains and returns is read as the session listening then - the last one (the reading that demands less)"],
 )
 PROF = dict(stop_p=.75, n_p=.25, ends_p=.1, wtt_p=.45, never=.07)
 PROF_BACKLOG = dict(backlog=True, limited_only=True, stop_p=.8, n_p=.3, ends_p=.05, wtt_p=.5, never=.05)
 # shutdown while an accepted task is handling the cancellation its timeout label caused (recv_props.gen_slow_cancel_shutdown)
 PROF_SLOWCANCEL = dict(stop_p=.5, n_p=.15, ends_p=.1, wtt_p=.12, slowcancel=.3)
+# run_receiver_task running for the whole scenario over a listen() that fails 0..3 times (recv_props.gen_live)
+PROF_LIVE = dict(limited_only=True, stop_p=.6, n_p=.3, ends_p=.15, wtt_p=.2, slowcancel=.1, reg_p=.05, A_choices=[1, 1, 1, 2, 2, 3])
 RN_TAGS = ("sem.acq", "q.get", "spawn", "waited")
 
 
@@ -64,7 +68,14 @@ def oracle(sc, obs):
     msgs = sc["msgs"]
     wtt = sc.get("wtt_us")
     A = sc["A"] if R.limited(sc) else None
-    taken = [i for _, i in f.takes]
+    # Under run_receiver_task (sc["live"]) listen() is called once per session; "the worker" that is asked to stop, accepts N
+    # messages, drains and returns is read as the session that is listening then - the LAST one (the reading that demands
+    # less): what a session whose listen() failed left running, or dropped with its hand-over queue, is not demanded of the
+    # session that replaced it.  In an ordinary run there is one session and nothing changes.
+    if f.live and f.t0 is not None:
+        f.t0 = max(f.t0, f.sess_start.get(f.last_s, 0))      # a session cannot react to a request before it exists
+    all_taken = [i for _, i in f.takes]
+    taken = [i for i in all_taken if f.final(i)]
     # -- at most one further message after the stop request (event order)
     seen_stop, after = False, 0
     for e in f.raw:
@@ -76,8 +87,11 @@ def oracle(sc, obs):
         out.append(dict(what="more than one message taken from the broker after the stop request", observed=after, expected="<= 1",
                         sig=dict(kind="one_more")))
     # -- max_tasks_to_execute: never more than N
-    if sc["N"] and len(taken) > sc["N"]:
-        out.append(dict(what="more than max_tasks_to_execute messages accepted", observed=len(taken), expected=sc["N"], sig=dict(kind="budget")))
+    per = {}
+    for i in all_taken:
+        per[f.session_of(i)] = per.get(f.session_of(i), 0) + 1
+    if sc["N"] and per and max(per.values()) > sc["N"]:
+        out.append(dict(what="more than max_tasks_to_execute messages accepted", observed=max(per.values()), expected=sc["N"], sig=dict(kind="budget")))
     ends = {i: f.cbend[i][0] for i in taken if f.cbend.get(i)}
     if f.returned:
         if f.t0 is None or f.ret_t < f.t0:
@@ -123,6 +137,19 @@ def oracle(sc, obs):
                             observed=dict(trigger_us=f.t0, last_end_us=max(ends.values()) if ends else None,
                                           returned_us=f.ret_t, observed_until_us=f.end_t, runner_at=runner_position(f, t_fin + R.EPS)),
                             expected="return by %d us" % (t_fin + R.EPS), sig=dict(kind="not_prompt")))
+    # -- it runs every message it has taken to completion and then returns: the request stands, none of the accepted messages is
+    #    being processed, nothing of them has started or ended for longer than a poll period - and listen() still has not
+    #    returned (observed until the harness' cut mark: a worker that has stopped dead logs nothing any more)
+    if not f.returned and len(ends) != len(taken):
+        cut_t = next((e[0] for e in obs["raw"] if e[1] == "CUTMARK"), f.end_t)
+        running = [i for i in taken if f.cbstart.get(i) and i not in ends]
+        quiet = max([f.t0] + [t for i in taken for t in f.cbstart.get(i, []) + f.cbend.get(i, [])])
+        if not running and cut_t > quiet + R.POLL + R.EPS:
+            out.append(dict(what="shutdown was triggered and no accepted task is running, yet listen() neither runs the accepted "
+                                 "messages that have not been started nor returns",
+                            observed=dict(trigger_us=f.t0, accepted=taken, never_started=[i for i in taken if not f.cbstart.get(i)],
+                                          nothing_happened_since_us=quiet, observed_until_us=cut_t, runner_at=runner_position(f, cut_t)),
+                            expected="every accepted message run to completion, then return", sig=dict(kind="stalled")))
     # -- once wait_tasks_timeout has elapsed it returns promptly: after the trigger no period longer than 0.3 s + the timeout
     #    in which no accepted message starts or finishes and listen() still has not returned
     if wtt is not None:
@@ -132,7 +159,7 @@ def oracle(sc, obs):
             nxt = pts[k + 1] if k + 1 < len(pts) else R_t
             g = p + R.POLL + wtt + R.EPS      # one poll period to notice, then the timeout
             if nxt > g and any(i not in ends or ends[i] > p for i in taken):
-                holders = [i for i in f.cbstart if f.cbstart[i][0] <= p and not (f.cbdone.get(i) and f.cbdone[i][0] <= g)]
+                holders = [i for i in f.cbstart if f.final(i) and f.cbstart[i][0] <= p and not (f.cbdone.get(i) and f.cbdone[i][0] <= g)]
                 out.append(dict(what="wait_tasks_timeout elapsed with no accepted message starting or finishing, yet listen() has not returned",
                                 observed=dict(trigger_us=f.t0, idle_since_us=p, still_not_returned_at_us=g, returned_us=f.ret_t,
                                               runner_at=runner_position(f, g), slot_holders=holders, A=A),
@@ -218,6 +245,8 @@ def run(ctx):
     scs = [R.gen_scenario(r, PROF if i % 3 else PROF_BACKLOG) for i in range(ctx.n(450, 30000))]
     r3 = ctx.sub_rng("gen-slow-cancel")      # own stream: the scenarios above are what they were
     scs += [R.gen_slow_cancel_shutdown(r3, PROF_SLOWCANCEL) for _ in range(ctx.n(70, 4000))]
+    r4 = ctx.sub_rng("gen-live")             # own stream
+    scs += [R.gen_live(r4, PROF_LIVE) for _ in range(ctx.n(80, 4000))]
     broken = explore(ctx, rep, scs, "main")
     if not ctx.quick:
         broken = explore(ctx, rep, R.grid_scenarios(), "grid") or broken
